@@ -40,6 +40,11 @@ func (sc *RevScenario) buildViews(obs *RevObs, co *CallObs) []*CertView {
 	for k, v := range w.crlReg {
 		reg[k] = v
 	}
+	if w.CloneOf != nil {
+		for k, v := range w.CloneOf.crlReg {
+			reg[k] = v
+		}
+	}
 	for _, x := range obs.Net.All() {
 		if cs, ok := x.Rec.Served.(*CRLServed); ok && cs != nil {
 			reg[cs.Spec.Hash] = cs.Spec
